@@ -681,7 +681,10 @@ def compare_fill(e, a, bbox, unit_tol, palette_check=None):
                 if (te is None) != (ta is None):
                     probs.append("degenerate linear gradient on one side only")
                 break
-            if abs(te - ta) > tol * (1 + abs(te)):
+            # a displacement u of the gradient's points moves t by about (u/L)(1 + |t| + |x - p0|/L): the last term
+            # is the turn of a short gradient line seen from a far sample point
+            far = math.hypot(x[0] - ep[0][0], x[1] - ep[0][1]) / max(L, 1e-6)
+            if abs(te - ta) > tol * (1 + abs(te) + far):
                 probs.append(f"linear gradient t({x[0]:.1f},{x[1]:.1f}) = {ta:.4f} != expected {te:.4f} (tol {tol:.4f})")
                 break
         return probs
